@@ -1,10 +1,12 @@
 import DryocVerif.Model.Entropy
+import DryocVerif.Model.EntropyInst
+import DryocVerif.Proofs.EntropyExtra
 /-
 C11 — every randomised operation draws fresh randomness on every call.
 What a theorem can carry is the data flow from the entropy source to the result.
 -/
 namespace DryocVerif.Properties.C11
-open DryocVerif DryocVerif.Model.Entropy
+open DryocVerif DryocVerif.Model.Entropy DryocVerif.Proofs.EntropyExtra
 
 /-- every entry point consumes exactly its documented number of bytes from the *current*
 position of the stream (no constant, no reuse): the rest is the stream minus that prefix -/
@@ -35,19 +37,192 @@ theorem fresh_outputs_keypair (D : Derivers) (s₁ s₂ : Bytes) (h₁ : 32 ≤ 
   apply h
   rw [← keypair_secret_is_draw D s₁ h₁, ← keypair_secret_is_draw D s₂ h₂, e]
 
-/-- every name of the line protocol has a data-flow entry (the table is total on what the runner offers) -/
+/-! ### freshness for the derived kinds -/
+
+/-- a draw that is not all-zero gives a value that is not all-zero (keys, nonces, salts) -/
+theorem nonzero_raw (n : Nat) (src : Bytes) (h : src.take n ≠ zeros n) :
+    (raw n src).comp ≠ zeros n := h
+
+/-- non-vacuity witness for `nonzero_raw` -/
+example : ([0, 0, 5, 9] : Bytes).take 3 ≠ zeros 3 := by decide
+
+/-- **Freshness for every kind except `.ephemeral`** (raw values, X25519 key pairs, Ed25519
+key pairs in both reported shapes, the `Kdf` pair, the salt text): if two calls draw
+different bytes, their results differ.  `Derivers` is uninterpreted; the only property of
+it that is needed is injectivity of the salt text encoding on 16-byte salts, and only for
+`.saltText` (for the key pairs the draw is itself part of the result). -/
+theorem fresh_outputs_derived (D : Derivers) (k : Kind) (s₁ s₂ : Bytes) (hk : k ≠ .ephemeral)
+    (hb64 : k = .saltText → InjOnLen 16 D.b64)
+    (h₁ : k.consumed ≤ s₁.length) (h₂ : k.consumed ≤ s₂.length)
+    (h : s₁.take k.consumed ≠ s₂.take k.consumed) :
+    (run D k s₁).comp ≠ (run D k s₂).comp :=
+  Proofs.EntropyExtra.fresh_outputs_derived D k s₁ s₂ hk hb64 h₁ h₂ h
+
+/-- the text encoding the driver uses for the salt (RFC 4648 base64 without padding, as
+ASCII bytes) is injective — via `Spec.Base64.decode_encode` -/
+theorem saltText_injective (a b : Bytes) (h : b64Ascii a = b64Ascii b) : a = b :=
+  b64Ascii_injective a b h
+
+/-- … so for the instantiation the driver runs (`specDerivers`: RFC 7748 base-point
+multiplication, RFC 8032 public key, base64) no hypothesis about the post-processing is
+left: `crypto_pwhash_str` called twice with different salts drawn gives different salt
+texts, `Kdf::gen` different (key, context) pairs, the signing key pairs different pairs. -/
+theorem fresh_outputs_spec (k : Kind) (s₁ s₂ : Bytes) (hk : k ≠ .ephemeral)
+    (h₁ : k.consumed ≤ s₁.length) (h₂ : k.consumed ≤ s₂.length)
+    (h : s₁.take k.consumed ≠ s₂.take k.consumed) :
+    (run specDerivers k s₁).comp ≠ (run specDerivers k s₂).comp :=
+  Proofs.EntropyExtra.fresh_outputs_spec k s₁ s₂ hk h₁ h₂ h
+
+/-- non-vacuity witnesses: the hypotheses are satisfiable for `.saltText`, `.signKeypair`,
+`.signKeypairFull` and `.two` (streams of the right length whose prefixes differ) -/
+example : Kind.saltText ≠ .ephemeral ∧ Kind.saltText.consumed ≤ (zeros 16).length ∧
+    Kind.saltText.consumed ≤ (1 :: zeros 15 : Bytes).length ∧
+    (zeros 16).take Kind.saltText.consumed ≠ (1 :: zeros 15 : Bytes).take Kind.saltText.consumed ∧
+    (run specDerivers .saltText (zeros 16)).comp
+      ≠ (run specDerivers .saltText (1 :: zeros 15)).comp := by decide
+example : (Kind.two 32 8).consumed ≤ (zeros 40).length ∧
+    (zeros 40).take (Kind.two 32 8).consumed ≠ (zeros 39 ++ [1] : Bytes).take (Kind.two 32 8).consumed ∧
+    Kind.signKeypairFull.consumed ≤ (zeros 32).length ∧ Kind.signKeypair.consumed ≤ (zeros 32).length :=
+  by decide
+
+/-- **For `.ephemeral` (sealed boxes) the naive statement is FALSE.**  X25519 clamps the
+scalar, so two 32-byte draws that differ only in clamped bits give the same ephemeral
+public key: here `00…00` and `01 00…00`. -/
+theorem ephemeral_naive_false :
+    ephA.length = 32 ∧ ephB.length = 32 ∧ ephA.take 32 ≠ ephB.take 32 ∧
+    (run specDerivers .ephemeral ephA).comp = (run specDerivers .ephemeral ephB).comp :=
+  Proofs.EntropyExtra.ephemeral_naive_false
+
+/-- **Even "distinct CLAMPED scalars give distinct public keys" is FALSE**: `k = 2^254` and
+`k' = 8·L − 2^254` are both fixed points of `clamp`, differ, and give the same public key
+(`[k']B = −[k]B`, and X25519 keeps only the u-coordinate). -/
+theorem ephemeral_clamped_false :
+    ephK.length = 32 ∧ ephK'.length = 32 ∧
+    Spec.X25519.clamp ephK = ephK ∧ Spec.X25519.clamp ephK' = ephK' ∧ ephK ≠ ephK' ∧
+    (run specDerivers .ephemeral ephK).comp = (run specDerivers .ephemeral ephK').comp :=
+  Proofs.EntropyExtra.ephemeral_clamped_false
+
+/-- hence injectivity of the base-point multiplication on 32-byte inputs — the hypothesis a
+`fresh_outputs` statement for `.ephemeral` would need — fails for the real function -/
+theorem x25519Base_not_injective : ¬ InjOnLen 32 specDerivers.x25519Base :=
+  Proofs.EntropyExtra.x25519Base_not_injective
+
+/-- **What is true for `.ephemeral`, (1)**: the ephemeral public key of a sealed box is a
+function of the CLAMPED draw — draws with equal clamped scalars give equal keys, and
+(contrapositive) different keys come from different clamped scalars.  The converse needs
+`k ≢ ±k' (mod L)`, which is curve theory and is not proved here. -/
+theorem ephemeral_eq_of_clamp_eq (s₁ s₂ : Bytes)
+    (h : Spec.X25519.clamp (s₁.take 32) = Spec.X25519.clamp (s₂.take 32)) :
+    (run specDerivers .ephemeral s₁).comp = (run specDerivers .ephemeral s₂).comp :=
+  Proofs.EntropyExtra.ephemeral_eq_of_clamp_eq s₁ s₂ h
+
+theorem ephemeral_clamped_ne_of_ne (s₁ s₂ : Bytes)
+    (h : (run specDerivers .ephemeral s₁).comp ≠ (run specDerivers .ephemeral s₂).comp) :
+    Spec.X25519.clamp (s₁.take 32) ≠ Spec.X25519.clamp (s₂.take 32) :=
+  Proofs.EntropyExtra.ephemeral_clamped_ne_of_ne s₁ s₂ h
+
+/-- **(2)**: freshness relative to a set `S` of draws on which the base-point multiplication
+is injective.  For the real X25519, `S` can be no larger than a set without two draws of
+equal clamped scalar and without clamped scalars `k + k' ≡ 0 (mod L)`; that such an `S`
+has all but a negligible fraction of the draws is NOT proved. -/
+theorem fresh_outputs_ephemeral (D : Derivers) (S : Bytes → Prop)
+    (hinj : ∀ a b, S a → S b → D.x25519Base a = D.x25519Base b → a = b) (s₁ s₂ : Bytes)
+    (h₁ : S (s₁.take 32)) (h₂ : S (s₂.take 32)) (h : s₁.take 32 ≠ s₂.take 32) :
+    (run D .ephemeral s₁).comp ≠ (run D .ephemeral s₂).comp :=
+  Proofs.EntropyExtra.fresh_outputs_ephemeral D S hinj s₁ s₂ h₁ h₂ h
+
+/-- non-vacuity witness for `fresh_outputs_ephemeral` with the real function: on the
+two-element set {`2^254`, `2^254 + 8`} it is injective, and the two keys differ -/
+example : (run specDerivers .ephemeral ephK).comp
+    ≠ (run specDerivers .ephemeral (toLE 32 (2 ^ 254 + 8))).comp := by decide +kernel
+
+/-! ### n consecutive calls -/
+
+/-- every entry point's random component depends on the first `k.consumed` bytes of the
+stream only -/
+theorem run_comp_prefix (D : Derivers) (k : Kind) (s : Bytes) :
+    (run D k s).comp = (run D k (s.take k.consumed)).comp :=
+  Proofs.EntropyExtra.run_comp_prefix D k s
+
+/-- **n-call version of `consecutive_disjoint`**: when the operations `ks` are run one after
+the other, the i-th call sees the stream from which exactly the bytes of the first i calls
+(`offset ks i` = sum of their `consumed`) have been removed … -/
+theorem calls_disjoint (D : Derivers) (ks : List Kind) (src : Bytes) (i : Nat)
+    (hi : i < ks.length) :
+    (runSeq D ks src)[i]? = some (run D ks[i] (src.drop (offset ks i))) :=
+  Proofs.EntropyExtra.calls_disjoint D ks src i hi
+
+/-- … its result is a function of its own window `src[offset i, offset i + consumed i)`
+only, it leaves the stream at `offset (i+1)`, and the windows are consecutive, hence
+pairwise disjoint (`offset_succ`) -/
+theorem calls_window (D : Derivers) (ks : List Kind) (src : Bytes) (i : Nat)
+    (hi : i < ks.length) :
+    ∃ r, (runSeq D ks src)[i]? = some r ∧
+      r.comp = (run D ks[i] ((src.drop (offset ks i)).take ks[i].consumed)).comp ∧
+      r.rest = src.drop (offset ks (i + 1)) ∧ r.draws.sum = ks[i].consumed :=
+  Proofs.EntropyExtra.calls_window D ks src i hi
+
+theorem offset_succ (ks : List Kind) (i : Nat) (hi : i < ks.length) :
+    offset ks (i + 1) = offset ks i + ks[i].consumed :=
+  Proofs.EntropyExtra.offset_succ ks i hi
+
+/-- after all n calls the stream has lost exactly the sum of the `consumed` -/
+theorem calls_rest (D : Derivers) (ks : List Kind) (src : Bytes) :
+    restAfter D ks src = src.drop ((ks.map Kind.consumed).sum) := by
+  rw [restAfter_eq]; simp [offset]
+
+/-- non-vacuity witness: for the three calls `Kdf::gen`, a nonce, a salt text, the third call
+(index 2) starts at byte 32 + 8 + 24 = 64; and a small run: three calls on `1,…,7` get the
+windows `1 2 3`, `4 5`, `6` -/
+example : offset [.two 32 8, .raw 24, .saltText] 2 = 64 ∧
+    ((runSeq specDerivers [.two 2 1, .raw 2, .raw 1] [1, 2, 3, 4, 5, 6, 7]).map Res.comp)
+      = [[1, 2, 3], [4, 5], [6]] := by decide
+
+/-! ### the table -/
+
+/-- a lookup example.  (NOT a totality statement: see `table_total`.) -/
 example : (table.lookup "pwhash_str") = some .saltText := by decide
 
-/-- the table the runner dispatches on is a function: no entry-point name occurs twice, so
-`table.lookup` finds *the* data flow of every name the line protocol offers -/
+/-- the nightly generators the runner offers have their entries, with the data flow read
+off `/repo/src` (see the docstring of `Model.Entropy.table`) -/
+example : table.lookup "lockedro_gen32" = some (.raw 32) ∧
+    table.lookup "locked_trait_gen32" = some (.raw 32) ∧
+    table.lookup "heapbytes_gen_locked33" = some (.raw 33) ∧
+    table.lookup "locked_kdf_gen" = some (.two 32 8) ∧
+    table.lookup "lockedro_keypair_gen" = some .keypair ∧
+    table.lookup "sign_locked_keypair_gen" = some .signKeypairFull ∧
+    table.lookup "sign_lockedro_keypair_gen" = some .signKeypairFull ∧
+    table.lookup "locked_secretbox_key_gen" = some (.raw 32) := by decide
+
+/-- SELF-CONSISTENCY of the literal list `Model.Entropy.table`, nothing more: no entry-point
+name occurs twice, so `table.lookup` is a function on the names that occur in it.
+This does NOT say that the table covers the runner's list of randomised entry points
+(`/verif/harness/src/ops_rand.rs`): that list lives in Rust source and no Lean statement
+relates to it.  Coverage is a manual correspondence (60 names on both sides when this was
+written) checked only by the differential run, where a name missing from the table makes
+the driver answer `n/a`. -/
 theorem table_total : (table.map Prod.fst).Nodup := by decide
 
-/-- … and every name of the table does have its entry -/
+/-- … and every name of the table does have its entry (again about the literal list) -/
 theorem table_lookup_mem : ∀ e ∈ table, table.lookup e.1 = some e.2 := by decide
 
-/-- every entry point of the table draws at least one byte: there is no operation in the table that
-could return a constant -/
+/-- regression guard for the manual correspondence: the number of entries -/
+theorem table_length : table.length = 60 := by decide
+
+/-- every entry point of the table draws at least one byte.
+This is a statement about `Kind.consumed` only.  It does NOT imply that an operation
+"could not return a constant": `Derivers` is uninterpreted, and a constant post-processing
+function (e.g. `b64 := fun _ => []`) makes `.saltText`/`.ephemeral` return a constant
+while still consuming 16/32 bytes.  That the result actually depends on the draw is what
+`fresh_outputs_raw`, `fresh_outputs_derived`, `fresh_outputs_spec` and the `.ephemeral`
+theorems above say, under their stated hypotheses. -/
 theorem consumed_pos : ∀ k ∈ table.map Prod.snd, 0 < k.consumed := by decide
+
+/-- the caveat made concrete: with a constant deriver the salt text does not depend on the
+draw although 16 bytes are consumed -/
+example : ∃ D : Derivers, ∀ s₁ s₂ : Bytes,
+    (run D .saltText s₁).comp = (run D .saltText s₂).comp ∧ Kind.saltText.consumed = 16 :=
+  ⟨⟨fun _ => [], fun _ => [], fun _ => []⟩, fun _ _ => ⟨rfl, rfl⟩⟩
 
 /-- non-vacuity -/
 example : (raw 2 [1, 2, 3]).comp = [1, 2] ∧ (raw 2 [1, 2, 3]).rest = [3] := by decide
